@@ -28,7 +28,8 @@ use fv::bv::Bv;
 use fv::engine::{self, guard, Failure, Obs, Spec, Tier};
 use fv::refil::{FnView, RefMem, RefState};
 use fv::tape::{from_tape, Tape};
-use prog::{assemble, listing, shapes, Isa, Item, Kind, Program, Simple, ISAS, RET_ADDR, SCRATCH, SCRATCH_LEN, STACK};
+use proptest::strategy::Strategy;
+use prog::{assemble, listing, shapes, Isa, Item, Program, Simple, ISAS, RET_ADDR, SCRATCH, SCRATCH_LEN, STACK};
 use serde::{Deserialize, Serialize};
 use std::collections::{BTreeMap, BTreeSet};
 
@@ -279,7 +280,8 @@ fn compare(s: &Trace, f: &Trace) -> Option<(String, usize, String)> {
             }
         }
         (End::Cap, End::Cap) => None,
-        (End::Stall, End::Stall) | (End::Stall, End::Cap) => {
+        // both spin without executing anything (a cycle of direct branches)
+        (End::Stall, End::Stall) => {
             if s.evs.len() != f.evs.len() {
                 Some(("end".into(), n, lens))
             } else {
@@ -374,25 +376,13 @@ fn check(c: &Case, obs: &mut Obs) -> Result<(), Failure> {
             Err(e) => fv::fail!(format!("C06|{}|stepper|unit-shape", tag), "{}\n{}", e, listing(&p)),
         }
     }
+    // lifted native instructions whose own lifting holds no IL instruction
+    let no_il_addrs: BTreeSet<u64> = units.iter().filter(|(_, u)| u.il_instrs[0] == 0).map(|(a, _)| *a).collect();
     let init = initial_state(c, &p, &names);
     let watch = Watch { names: init.scalars.iter().map(|(n, v)| (n.clone(), v.w)).collect(), mem: init.mem.bytes.keys().copied().collect() };
 
-    // native instructions whose own lifting holds no IL instruction at all
-    let mut empty_units: BTreeSet<u64> = BTreeSet::new();
-    for (a, u) in &units {
-        for (k, n) in u.il_instrs.iter().enumerate() {
-            if *n == 0 && u.addrs[k] == *a {
-                // (the MIPS deferred branch body at A+1 is allowed to be empty: A holds a nop)
-                if !(isa.is_mips() && k > 0) {
-                    empty_units.insert(*a);
-                }
-            }
-        }
-    }
-
     // ---- the sequential execution
-    let no_skip = BTreeSet::new();
-    let st = run_stepper(&p, &units, &init, &lifted, &watch, c.max_steps, None, &no_skip);
+    let st = run_stepper(&p, &units, &init, &lifted, &watch, c.max_steps, None);
     if let End::Fault(f) = &st.end {
         obs.exclude(&format!("stepper-fault:{}", f.split(':').next().unwrap_or("")));
         return Ok(());
@@ -499,57 +489,83 @@ fn check(c: &Case, obs: &mut Obs) -> Result<(), Failure> {
             fv::fail!(format!("C06|{}|structure|exit-names-missing-block", tag), "exit {} is not a block\n{}", x, dump());
         }
     }
-    // where every native address occurs
-    let mut occ: BTreeMap<u64, BTreeSet<usize>> = BTreeMap::new();
+    // Where every native instruction occurs.  Ground truth per reachable instruction: the IL of
+    // its own lifting (n IL instructions spread over nb IL blocks; the two halves A / A+1 of a MIPS
+    // branch count separately).  "Appears in exactly one block" is decided as: all n IL
+    // instructions are there, none twice, and they sit in no more blocks than the instruction's own
+    // graph has (one block for the ordinary single-block instruction).  An instruction whose own
+    // lifting holds NO IL instruction (falcon documents that direct branches are omitted from the IL
+    // and become guarded edges) cannot occur in a block; the clause does not range over it.
+    let mut occ: BTreeMap<u64, (usize, BTreeSet<usize>)> = BTreeMap::new();
     for (b, is) in &view.blocks {
         for i in is {
             if let Some(a) = i.address {
-                occ.entry(fold(isa, a)).or_default().insert(*b);
+                let e = occ.entry(a).or_default();
+                e.0 += 1;
+                e.1.insert(*b);
             }
         }
     }
-    let empty_sig = format!("C06|{}|structure|reachable-instruction-in-no-block|empty-instruction-graph", tag);
-    let mut tolerate_empty = false;
-    for a in &r_addrs {
-        let n = occ.get(a).map(|s| s.len()).unwrap_or(0);
-        let k = p.by_addr[a];
-        let multi = units.get(a).map(|u| u.il_blocks.iter().any(|b| *b > 1)).unwrap_or(false);
-        if n == 0 {
-            if empty_units.contains(a) {
-                if obs.known(&empty_sig) {
-                    tolerate_empty = true;
-                    continue;
-                }
-                fv::fail!(empty_sig, "the instruction at 0x{:x} ({}) is reachable through direct branches but no block of the recovered function holds an instruction with its address (its own lifting is an empty graph)\n{}", a, p.insns[k].text, dump());
+    let mut expect: BTreeMap<u64, (usize, usize, usize)> = BTreeMap::new();
+    for k in &r_units {
+        let u = &units[&p.insns[*k].addr];
+        for (j, (raw, _)) in u.graphs.iter().enumerate() {
+            let native = p.by_addr.get(&fold(isa, *raw)).copied().unwrap_or(*k);
+            expect.insert(*raw, (u.il_instrs[j], u.il_blocks[j], native));
+        }
+    }
+    let mut no_il = 0u64;
+    for (raw, (n, nb, native)) in &expect {
+        let text = &p.insns[*native].text;
+        if *n == 0 {
+            if p.by_addr.contains_key(raw) {
+                no_il += 1;
             }
-            fv::fail!(format!("C06|{}|structure|reachable-instruction-in-no-block", tag), "the instruction at 0x{:x} ({}) is reachable through direct branches but occurs in no block\n{}", a, p.insns[k].text, dump());
+            continue;
         }
-        if n > 1 && !multi {
-            fv::fail!(format!("C06|{}|structure|instruction-in-several-blocks", tag), "the instruction at 0x{:x} ({}) occurs in blocks {:?}\n{}", a, p.insns[k].text, occ[a], dump());
+        let (got, blocks) = occ.get(raw).cloned().unwrap_or_default();
+        if got == 0 {
+            fv::fail!(format!("C06|{}|structure|reachable-instruction-in-no-block", tag), "the instruction at 0x{:x} ({}) is reachable through direct branches but occurs in no block\n{}", raw, text, dump());
+        }
+        if blocks.len() > *nb {
+            fv::fail!(format!("C06|{}|structure|instruction-in-several-blocks", tag), "the instruction at 0x{:x} ({}) lifts to {} IL block(s) but occurs in blocks {:?}\n{}", raw, text, nb, blocks, dump());
+        }
+        if got > *n {
+            fv::fail!(format!("C06|{}|structure|instruction-duplicated", tag), "the instruction at 0x{:x} ({}) lifts to {} IL instruction(s), the recovered function holds {} with its address\n{}", raw, text, n, got, dump());
+        }
+        if got < *n {
+            fv::fail!(format!("C06|{}|structure|instruction-partly-missing", tag), "the instruction at 0x{:x} ({}) lifts to {} IL instruction(s), the recovered function holds only {} with its address\n{}", raw, text, n, got, dump());
         }
     }
-    if tolerate_empty {
-        obs.exclude(&format!("known_finding:{}", empty_sig));
-    }
-    // entry block is the function address
-    let entry_first = view.blocks[&entry_block].first().and_then(|i| i.address).map(|a| fold(isa, a));
-    if entry_first != Some(p.entry) {
-        if empty_units.contains(&p.entry) && obs.known(&empty_sig) {
-            obs.exclude("entry-check-skipped:known-empty-graph");
-        } else {
-            let sig = if empty_units.contains(&p.entry) { empty_sig.clone() } else { format!("C06|{}|structure|entry-block-not-function-address", tag) };
-            fv::fail!(sig, "the entry block {} starts with {:x?}, the function address is 0x{:x}\n{}", entry_block, entry_first, p.entry, dump());
+    obs.count("reachable-instructions", r_addrs.len() as u64);
+    obs.count("reachable-instructions-without-il", no_il);
+    // The entry block is the function address: its first instruction carries that address.  When
+    // the function's first native instruction lifts to no IL instruction (a direct branch) the entry
+    // block has no such instruction to show; the behavioural comparison below still requires the
+    // executions to start identically.
+    let entry_has_il = expect.get(&p.entry).map(|e| e.0 > 0).unwrap_or(false);
+    if entry_has_il {
+        let entry_first = view.blocks[&entry_block].first().and_then(|i| i.address);
+        if entry_first != Some(p.entry) {
+            fv::fail!(format!("C06|{}|structure|entry-block-not-function-address", tag), "the entry block {} starts with {:x?}, the function address is 0x{:x}\n{}", entry_block, entry_first, p.entry, dump());
         }
+    } else {
+        obs.class("entry-instruction-without-il");
     }
     // manual tails lifted and connected
     for (h, t) in &manual {
         let heads: BTreeSet<usize> = view.blocks.iter().filter(|(_, is)| is.last().map(|i| i.address.map(|a| fold(isa, a)) == Some(*h) && matches!(i.op, il::Operation::Branch { .. })).unwrap_or(false)).map(|(b, _)| *b).collect();
         let tails: BTreeSet<usize> = view.blocks.iter().filter(|(_, is)| is.first().and_then(|i| i.address) == Some(*t)).map(|(b, _)| *b).collect();
-        if tails.is_empty() {
-            fv::fail!(format!("C06|{}|manual|tail-not-lifted", tag), "no block starts at the manual tail 0x{:x}\n{}", t, dump());
-        }
         if heads.is_empty() {
             fv::fail!(format!("C06|{}|manual|head-not-a-block-end", tag), "no block ends with the Branch of the manual head 0x{:x}\n{}", h, dump());
+        }
+        if no_il_addrs.contains(t) {
+            // the tail is a direct branch: its block holds no instruction that could identify it
+            obs.exclude("manual-tail-check:tail-without-il");
+            continue;
+        }
+        if tails.is_empty() {
+            fv::fail!(format!("C06|{}|manual|tail-not-lifted", tag), "no block starts at the manual tail 0x{:x}\n{}", t, dump());
         }
         if !view.edges.iter().any(|e| heads.contains(&e.head) && tails.contains(&e.tail)) {
             fv::fail!(format!("C06|{}|manual|tail-not-connected", tag), "no edge from the block ending at 0x{:x} to the block starting at 0x{:x}\n{}", h, t, dump());
@@ -557,12 +573,16 @@ fn check(c: &Case, obs: &mut Obs) -> Result<(), Failure> {
     }
 
     // ---- behaviour
-    let skip: BTreeSet<u64> = if tolerate_empty || obs.known(&empty_sig) { empty_units.clone() } else { BTreeSet::new() };
-    let st = if skip.is_empty() { st } else { run_stepper(&p, &units, &init, &lifted, &watch, c.max_steps, None, &skip) };
-    let rf = run_ref(isa, &view, &init, &lifted, &manual_tails, &watch, c.max_steps, None);
+    let rf = run_ref(isa, &view, &init, &lifted, &no_il_addrs, &manual_tails, &watch, c.max_steps, None);
+    if st.branch_to_no_il && rf.end == End::Fault("branch-target-has-no-il".into()) {
+        // an indirect branch lands on a lifted direct branch, for which no manual edge was requested:
+        // falcon's IL has no location for it (direct branches are edges, not instructions)
+        obs.exclude("behaviour:indirect-branch-to-instruction-without-il");
+        return Ok(());
+    }
     if let Some((kind, k, msg)) = compare(&st, &rf) {
-        let s2 = run_stepper(&p, &units, &init, &lifted, &watch, c.max_steps, Some(k), &skip);
-        let r2 = run_ref(isa, &view, &init, &lifted, &manual_tails, &watch, c.max_steps, Some(k));
+        let s2 = run_stepper(&p, &units, &init, &lifted, &watch, c.max_steps, Some(k));
+        let r2 = run_ref(isa, &view, &init, &lifted, &no_il_addrs, &manual_tails, &watch, c.max_steps, Some(k));
         let d = match (s2.snapshot.or(s2.final_state), r2.snapshot.or(r2.final_state)) {
             (Some(a), Some(b)) => diff_states(&a, &b, &watch),
             _ => String::new(),
@@ -570,9 +590,15 @@ fn check(c: &Case, obs: &mut Obs) -> Result<(), Failure> {
         let sig = if sh.target_delay_slot && kind.starts_with("fault:two-edges") { slot_sig.clone() } else { format!("C06|{}|reference-run|{}", tag, kind) };
         fv::fail!(sig, "{}\n(machine code vs recovered function: {})\ntrace tail {:x?}\n{}", msg, d, &st.evs.iter().map(|e| e.0).collect::<Vec<_>>()[k.saturating_sub(6)..(k + 1).min(st.evs.len())], dump());
     }
+    // `Driver::step` continues a Branch at the IL instruction that carries the target address and
+    // knows nothing of manual edges; it has nowhere to go when the target holds no IL
+    let driver_blind = st.branch_to_no_il;
+    if driver_blind {
+        obs.exclude("driver-run:indirect-branch-to-instruction-without-il");
+    }
     let dr = run_driver(isa, &function, arch.clone(), &init, &lifted, &watch, c.max_steps, None);
-    if let Some((kind, k, msg)) = compare(&st, &dr) {
-        let s2 = run_stepper(&p, &units, &init, &lifted, &watch, c.max_steps, Some(k), &skip);
+    if let (false, Some((kind, k, msg))) = (driver_blind, compare(&st, &dr)) {
+        let s2 = run_stepper(&p, &units, &init, &lifted, &watch, c.max_steps, Some(k));
         let d2 = run_driver(isa, &function, arch, &init, &lifted, &watch, c.max_steps, Some(k));
         let d = match (s2.snapshot.or(s2.final_state), d2.snapshot.or(d2.final_state)) {
             (Some(a), Some(b)) => diff_states(&a, &b, &watch),
@@ -616,40 +642,107 @@ fn render(c: &Case) -> String {
     )
 }
 
+/// remove items[start..start+len] (never the final terminator) and re-point every index
+fn without(c: &Case, start: usize, len: usize) -> Case {
+    let n = c.items.len();
+    let mut d = c.clone();
+    d.items.drain(start..start + len);
+    let last = n - len - 1;
+    let fix = |x: usize| (if x >= start + len { x - len } else if x >= start { start } else { x }).min(last);
+    for it in d.items.iter_mut() {
+        if let Some(t) = it.target_mut() {
+            *t = fix(*t);
+        }
+    }
+    d.entry_item = fix(d.entry_item);
+    d.disp_items = [fix(d.disp_items[0]), fix(d.disp_items[1])];
+    d
+}
+
+/// Structural shrinker.  proptest's own shrinking of the 900-entry tape is switched off (it needs
+/// thousands of re-lifts); every candidate here is strictly simpler in a well-founded order (fewer
+/// items, then fewer non-default fields), most aggressive first.
 fn simplify(c: &Case) -> Vec<Case> {
     let mut v = Vec::new();
     let n = c.items.len();
-    // drop one item (never the final terminator)
-    for i in 0..n.saturating_sub(1) {
+    if c.max_steps > 60 {
         let mut d = c.clone();
-        d.items.remove(i);
-        let fix = |x: usize| if x > i { x - 1 } else { x };
-        for it in d.items.iter_mut() {
-            if let Some(t) = it.target_mut() {
-                *t = fix(*t).min(n - 2);
-            }
-        }
-        d.entry_item = fix(d.entry_item).min(n - 2);
-        d.disp_items = [fix(d.disp_items[0]).min(n - 2), fix(d.disp_items[1]).min(n - 2)];
+        d.max_steps = 60;
         v.push(d);
     }
+    // drop chunks of items, large to small (never the final terminator)
+    let mut size = (n - 1) / 2;
+    while size >= 2 {
+        let mut start = 0;
+        while start + size <= n - 1 {
+            v.push(without(c, start, size));
+            start += size;
+        }
+        size /= 2;
+    }
+    for i in 0..n.saturating_sub(1) {
+        v.push(without(c, i, 1));
+    }
     // simpler items
+    let nop = Simple::nop();
     for i in 0..n {
         match &c.items[i] {
-            Item::S(s) if *s != Simple::nop() => {
+            Item::S(s) if *s != nop => {
                 let mut d = c.clone();
-                d.items[i] = Item::S(Simple::nop());
+                d.items[i] = Item::S(nop.clone());
+                v.push(d);
+            }
+            Item::SetDisp { .. } => {
+                let mut d = c.clone();
+                d.items[i] = Item::S(nop.clone());
                 v.push(d);
             }
             it if it.is_transfer() => {
+                if i + 1 < n && !matches!(it, Item::Dispatch { .. }) {
+                    // a transfer becomes a plain instruction
+                    let mut d = c.clone();
+                    d.items[i] = Item::S(nop.clone());
+                    v.push(d);
+                }
                 let mut d = c.clone();
                 if let Some(s) = d.items[i].slot_mut() {
-                    if *s != Simple::nop() {
-                        *s = Simple::nop();
+                    if *s != nop {
+                        *s = nop.clone();
+                        v.push(d);
+                    }
+                }
+                let mut d = c.clone();
+                let mut changed = false;
+                match &mut d.items[i] {
+                    Item::Cond { into_slot, near, .. } | Item::Loop { into_slot, near, .. } => {
+                        changed = *into_slot || *near;
+                        *into_slot = false;
+                        *near = false;
+                    }
+                    Item::Jmp { into_slot, near, abs, .. } => {
+                        changed = *into_slot || *near || *abs;
+                        *into_slot = false;
+                        *near = false;
+                        *abs = false;
+                    }
+                    _ => {}
+                }
+                if changed {
+                    v.push(d);
+                }
+                if let Item::Cond { cc, ra, rb, .. } = it {
+                    if *cc != 0 || *ra != 0 || *rb != 0 {
+                        let mut d = c.clone();
+                        if let Item::Cond { cc, ra, rb, .. } = &mut d.items[i] {
+                            *cc = 0;
+                            *ra = 0;
+                            *rb = 0;
+                        }
                         v.push(d);
                     }
                 }
             }
+            Item::S(_) | Item::Junk { .. } => {}
             _ => {}
         }
     }
@@ -663,14 +756,34 @@ fn simplify(c: &Case) -> Vec<Case> {
         d.entry_item = 0;
         v.push(d);
     }
-    if c.max_steps > 60 {
-        let mut d = c.clone();
-        d.max_steps = 60;
-        v.push(d);
-    }
     if c.manual != 0 && c.manual != 3 {
         let mut d = c.clone();
         d.manual = 3;
+        v.push(d);
+    }
+    if c.extended && c.manual == 0 {
+        let mut d = c.clone();
+        d.extended = false;
+        v.push(d);
+    }
+    if c.base != c.isa.bases()[0] {
+        let mut d = c.clone();
+        d.base = c.isa.bases()[0];
+        v.push(d);
+    }
+    if c.counter != 0 {
+        let mut d = c.clone();
+        d.counter = 0;
+        v.push(d);
+    }
+    if c.disp_choice != 0 {
+        let mut d = c.clone();
+        d.disp_choice = 0;
+        v.push(d);
+    }
+    if c.seed != 0 {
+        let mut d = c.clone();
+        d.seed = 0;
         v.push(d);
     }
     v
@@ -680,7 +793,7 @@ fn main() -> std::process::ExitCode {
     let mut spec = Spec::new(
         "C06",
         "machine-code programs of 3-60 items for x86/amd64/mips/mipsel/aarch64 (ALU, scratch loads/stores, forward/backward conditional and unconditional direct branches, counted loops, optional jmp-reg dispatch with manual edges, junk islands) recovered with translate_function[_extended] and compared, structurally against the generator's ground truth and behaviourally (Driver and reference interpreter on the recovered function vs a sequential one-unit-at-a-time stepper, same random initial state, up to 2000 native steps); non-trivial = at least 2 blocks after merge and at least one taken branch in the execution; distinct = (ISA, set of layout shapes {window cut, straddle, cut on boundary, MIPS branch in last 8 bytes, mid-block target, backward, entry loop, manual edges, ...}, instruction-count bucket)",
-        Box::new(|_t: Tier| from_tape(900, decode)),
+        Box::new(|_t: Tier| from_tape(900, decode).no_shrink().boxed()),
         |t| t.pick(6_000, 400_000),
         check,
     );
